@@ -289,29 +289,20 @@ func (z *Polyizer) Of(v ssa.Value) Poly {
 			}
 		case token.SHR:
 			if k, ok := constUint64(x.Y); ok && k < 63 {
-				inner := z.Of(x.X)
-				if a, ok := inner.singleAtom(); ok {
-					if strings.HasPrefix(a, fmt.Sprintf("up%d(", k)) {
-						return polyAtom("cdiv" + a[2:])
-					}
-					if strings.HasPrefix(a, fmt.Sprintf("down%d(", k)) {
-						return polyAtom("fdiv" + a[4:])
-					}
-				}
-				return polyAtom(fmt.Sprintf("fdiv%d(%s)", k, inner.String()))
+				return pFdiv(int(k), z.Of(x.X))
 			}
 		case token.REM:
 			// x % 2^k (unsigned) == x - 2^k*fdiv_k(x)
 			if c, ok := constUint64(x.Y); ok {
 				if k, ok := log2(c); ok && k > 0 {
 					inner := z.Of(x.X)
-					return inner.add(polyAtom(fmt.Sprintf("fdiv%d(%s)", k, inner.String())).mul(polyConst(int64(c))), -1)
+					return inner.add(pFdiv(k, inner).mul(polyConst(int64(c))), -1)
 				}
 			}
 		case token.QUO:
 			if c, ok := constUint64(x.Y); ok {
 				if k, ok := log2(c); ok && k > 0 {
-					return polyAtom(fmt.Sprintf("fdiv%d(%s)", k, z.Of(x.X).String()))
+					return pFdiv(k, z.Of(x.X))
 				}
 			}
 		case token.AND_NOT, token.AND:
@@ -321,12 +312,13 @@ func (z *Polyizer) Of(v ssa.Value) Poly {
 					if c, ok := constUint64(pair[1]); ok && c != 0 {
 						if k, ok := log2(c + 1); ok && k > 0 && k < 63 {
 							inner := z.Of(pair[0])
-							return inner.add(polyAtom(fmt.Sprintf("fdiv%d(%s)", k, inner.String())).mul(polyConst(int64(c+1))), -1)
+							return inner.add(pFdiv(k, inner).mul(polyConst(int64(c+1))), -1)
 						}
 					}
 				}
 			}
-			// x &^ m  or  x & ^m  with m = 2^k-1
+			// x &^ m  or  x & ^m  with m = 2^k-1: 2^k * fdiv_k(x). The round-up
+			// idiom (e + m) &^ m is the same form with x = e + m.
 			var mask uint64
 			var arg ssa.Value
 			found := false
@@ -351,21 +343,7 @@ func (z *Polyizer) Of(v ssa.Value) Poly {
 			}
 			if found {
 				k, _ := log2(mask + 1)
-				// round-up idiom: (e + m) &^ m, recognised by a structural "+ m" operand
-				if add, ok := stripConv(arg).(*ssa.BinOp); ok && add.Op == token.ADD {
-					for _, pair := range [][2]ssa.Value{{add.X, add.Y}, {add.Y, add.X}} {
-						if c, ok := constUint64(pair[1]); ok && c == mask {
-							return polyAtom(fmt.Sprintf("up%d(%s)", k, z.Of(pair[0]).String()))
-						}
-					}
-				}
-				// (e + PageSize - 1): the add chain may be nested; use the polynomial constant
-				inner := z.Of(arg)
-				if kk, ok := inner[""]; ok && uint64(kk) == mask && hasStructuralAdd(arg) {
-					rest := inner.add(polyConst(kk), -1)
-					return polyAtom(fmt.Sprintf("up%d(%s)", k, rest.String()))
-				}
-				return polyAtom(fmt.Sprintf("down%d(%s)", k, inner.String()))
+				return pDown(k, z.Of(arg))
 			}
 		}
 	case *ssa.UnOp:
@@ -399,6 +377,9 @@ func hasStructuralAdd(v ssa.Value) bool {
 func (z *Polyizer) defaultAtom(v ssa.Value) string {
 	switch x := v.(type) {
 	case *ssa.Parameter:
+		if r, ok := paramRoleName[x]; ok {
+			return r
+		}
 		return x.Name()
 	case *ssa.Phi:
 		if x.Comment != "" {
@@ -430,4 +411,87 @@ func (z *Polyizer) defaultAtom(v ssa.Value) string {
 		return fmt.Sprintf("(%s %s %s)", z.Of(x.X).String(), x.Op, z.Of(x.Y).String())
 	}
 	return "v:" + v.Name()
+}
+
+
+// ---- rounding in canonical form ----
+//
+// All power-of-two rounding is expressed through one atom family, the floor
+// division fdiv_k(r) = floor(r / 2^k), in a canonical shape: the argument r has
+// every coefficient in [0, 2^k) (multiples of 2^k are moved out of the floor,
+// which is exact for integers) and nested floors are merged
+// (floor(floor(x/2^j)/2^k) = floor(x/2^(j+k))). Ceiling division and rounding
+// up/down are written with it:
+//
+//	cdiv_k(p) = fdiv_k(p + 2^k - 1)    up_k(p) = 2^k*cdiv_k(p)    down_k(p) = 2^k*fdiv_k(p)
+//
+// so ((n+63) &^ 63) >> 3, ((n+63) >> 6) << 3 and 8*((n+63)/64) are one form.
+
+type fdivInfo struct {
+	k     int
+	inner Poly
+}
+
+var fdivAtoms = map[string]fdivInfo{}
+
+func pFdiv(k int, p Poly) Poly {
+	if k <= 0 {
+		return p
+	}
+	m := int64(1) << uint(k)
+	q, r := Poly{}, Poly{}
+	for mono, c := range p {
+		a := c >> uint(k) // floor division
+		b := c - a*m
+		if a != 0 {
+			q[mono] += a
+		}
+		if b != 0 {
+			r[mono] += b
+		}
+	}
+	if len(r) == 0 {
+		return q
+	}
+	if _, isC := r.isConst(); isC {
+		return q // 0 <= r < 2^k
+	}
+	// r = fdiv_j(inner) + c: merge the floors
+	c0 := r[""]
+	rest := r.add(polyConst(c0), -1)
+	if a, ok := rest.singleAtom(); ok {
+		if fi, ok := fdivAtoms[a]; ok {
+			merged := pFdiv(fi.k+k, fi.inner.add(polyConst(c0<<uint(fi.k)), 1))
+			return q.add(merged, 1)
+		}
+	}
+	name := fmt.Sprintf("fdiv%d(%s)", k, r.String())
+	fdivAtoms[name] = fdivInfo{k, r}
+	return q.add(polyAtom(name), 1)
+}
+
+func pCdiv(k int, p Poly) Poly { return pFdiv(k, p.add(polyConst(int64(1)<<uint(k)-1), 1)) }
+func pUp(k int, p Poly) Poly   { return pCdiv(k, p).mul(polyConst(int64(1) << uint(k))) }
+func pDown(k int, p Poly) Poly { return pFdiv(k, p).mul(polyConst(int64(1) << uint(k))) }
+
+// matchUp: p is up_k(inner) = 2^k * fdiv_k(inner + 2^k - 1); returns inner.
+func matchUp(k int, p Poly) (Poly, bool) {
+	if len(p) != 1 {
+		return nil, false
+	}
+	for mono, c := range p {
+		if c != int64(1)<<uint(k) {
+			return nil, false
+		}
+		fi, ok := fdivAtoms[mono]
+		if !ok || fi.k != k {
+			return nil, false
+		}
+		m := int64(1)<<uint(k) - 1
+		if fi.inner[""] != m {
+			return nil, false
+		}
+		return fi.inner.add(polyConst(m), -1), true
+	}
+	return nil, false
 }
